@@ -1,3 +1,4 @@
+\* GENERATED by tools/gen_v2_configs.py
 CONSTANTS
  Targets <- S_Targets
  ConnIds <- S_ConnIds
@@ -12,6 +13,7 @@ CONSTANTS
  MaxFailBursts = 0
  MaxSteps = 150
  Fine = FALSE
+ FineClients = FALSE
  AllPaths <- PU_All
  GoParent <- PU_GoParent
  TextPrefix <- PU_TextPrefix
